@@ -115,6 +115,12 @@ OnStep(r, ev) ==
      /\ IF ok THEN TRUE
         ELSE Verdict([l |-> l, ev |-> "step", kind |-> IF dev = "" THEN "MISMATCH" ELSE "KNOWN", dev |-> dev,
                       tag |-> "step", why |-> Explain(d.m, evx, Exec(d.m, ins, ev.idx))])
+     \* where the run goes on is the driver's business (C08): an answer of the interpreter that no alternative of the
+     \* model gives for this instruction in this state (an error for a valid CALL, a jump not taken, a wrong target) is
+     \* reported under `control` as well; the run would otherwise just end early or go on somewhere else unnoticed
+     /\ IF ok \/ dev # "" \/ (\E x \in alts : OutMatch(evx, x)) THEN TRUE
+        ELSE V("control", <<"the interpreter answered", ev.out, ev.arg, ev.err, "for", ev.line, "at index", ev.idx,
+                            "the specification allows", UNION {x.outs : x \in alts}>>)
      /\ Check(r.msg = << >>, "banner", <<"message not shown", r.msg>>)
      /\ run' = [r EXCEPT !.d = IF ev.out \in Outcomes THEN d2 ELSE [d EXCEPT !.phase = "done", !.outfree = TRUE], !.msg = msg]
 
